@@ -462,7 +462,7 @@ func init() {
 			}
 		}})
 
-	register(&Rule{ID: "T1", Min: 30, Text: "the SDK-facing handlers act only inside the caller's project: in every method of yorkieServer, every project component written into a Doc/Client/Channel ref key and every argument bound to a parameter named projectID originates from the project stored in the request context by the interceptor (projects.From(ctx)) — never from a request field",
+	register(&Rule{ID: "T1", Min: 30, Text: "the RPC handlers act only inside the caller's project: in every method of yorkieServer and adminServer, every project component written into a Doc/Client/Channel ref key and every argument bound to a parameter named projectID originates from the project stored in the request context by the interceptor (projects.From(ctx)) or, for signed-in admin users, from the project that projects.ProjectAndRole/GetProject resolved for users.From(ctx) — never from a request field",
 		Run: func(x *Ctx) {
 			from := x.P.FnObj("server/projects.From")
 			srvT := x.P.Named("server/rpc.yorkieServer")
@@ -474,8 +474,28 @@ func init() {
 			// projectValueOK: a *types.Project value that is the context's project — the result of
 			// projects.From(ctx), or a parameter of an unexported method whose every caller passes one
 			var projectValueOK func(v ssa.Value, depth int) bool
+			par := x.P.FnObj("server/projects.ProjectAndRole")
+			getP := x.P.FnObj("server/projects.GetProject")
+			usersFrom := x.P.FnObj("server/users.From")
+			byUser := func(v ssa.Value) bool {
+				// the project a signed-in user is owner/member of: ProjectAndRole/GetProject(ctx, be, users.From(ctx).ID, name)
+				return prog.Reaches(v, func(w ssa.Value) bool {
+					ex, ok := w.(*ssa.Extract)
+					if !ok || ex.Index != 0 {
+						if c, isC := w.(*ssa.Call); isC && sameFunc(prog.CallObj(c), getP) {
+							return usersFrom != nil && prog.DependsOn(c.Call.Args[2], func(u ssa.Value) bool { return vpCall(usersFrom).match(u) })
+						}
+						return false
+					}
+					c, ok := ex.Tuple.(*ssa.Call)
+					if !ok || !(sameFunc(prog.CallObj(c), par) || sameFunc(prog.CallObj(c), getP)) {
+						return false
+					}
+					return usersFrom != nil && prog.DependsOn(c.Call.Args[2], func(u ssa.Value) bool { return vpCall(usersFrom).match(u) })
+				})
+			}
 			projectValueOK = func(v ssa.Value, depth int) bool {
-				if flowsFromCallTo(v, from) {
+				if flowsFromCallTo(v, from) || byUser(v) {
 					return true
 				}
 				var pm *ssa.Parameter
@@ -517,7 +537,7 @@ func init() {
 						bad = true // some other field (e.g. of the request)
 					}
 					if c, isC := w.(*ssa.Call); isC {
-						if !sameFunc(prog.CallObj(c), from) {
+						if !sameFunc(prog.CallObj(c), from) && !sameFunc(prog.CallObj(c), par) && !sameFunc(prog.CallObj(c), getP) {
 							bad = true
 						}
 					}
@@ -535,7 +555,7 @@ func init() {
 				for root.Parent() != nil {
 					root = root.Parent()
 				}
-				if root.Signature.Recv() == nil || !isNamed(root.Signature.Recv().Type(), srvT) {
+				if root.Signature.Recv() == nil || !(isNamed(root.Signature.Recv().Type(), srvT) || isNamed(root.Signature.Recv().Type(), x.P.Named("server/rpc.adminServer"))) {
 					continue
 				}
 				for _, b := range fn.Blocks {
